@@ -53,7 +53,7 @@ def _run(case):
     if np.any(kap > 1e6):
         fails.append(Failure("excluded:ill_conditioned_derived", "joint covariance cond > 1e6"))
         return fails
-    ok, got = lib(fails, tag + ".evaluate_ln", lambda: j.evaluate_ln(J(z)))
+    ok, got = (False, None) if case.get("far_mean") else lib(fails, tag + ".evaluate_ln", lambda: j.evaluate_ln(J(z)))
     if ok:
         # the joint is evaluated in information form: its natural scale includes |z|^2 * |Lambda|
         Lj = oracle.inv_spd(Sigs)
@@ -72,7 +72,7 @@ def _run(case):
 
 
 SUBS = [
-    Sub("joint", _cond.pool, lambda shapes: _cond.strategy(shapes), _run, _cond.nontrivial, _cond.labels,
+    Sub("joint", _cond.pool, lambda shapes: _cond.strategy(shapes, far_mean=True), _run, _cond.nontrivial, _cond.labels,
         examples={"quick": 150, "thorough": 500}, shards={"quick": 12, "thorough": 28},
         rule="batch combo != (1,1) or Dx,Dy>=2"),
 ]
